@@ -24,6 +24,9 @@ Event(ev) ==
       [] ev.ev = "Process" -> Has(ev.p, ev.lo, ev.hi, "emitted") /\ Process(Idx(ev.p, ev.lo, ev.hi, "emitted"))
       [] ev.ev = "Commit" -> \E i \in 1 .. Len(fl) : fl[i].p = ev.p /\ fl[i].hi + 1 = ev.offset /\ CommitCb(i)
       [] ev.ev = "Crash" -> Crash
+      \* stop() followed at once by start() on the running source (plain life-cycle calls, no crash): the polling loop is
+      \* still suspended and carries on -- positions, batches in flight and the commit protocol are untouched
+      [] ev.ev = "Restart" -> Same
       [] ev.ev = "ObsPos" -> (\A p \in 0 .. (Len(ev.pos) - 1) : positions[p] = ev.pos[p + 1]) /\ known = Len(ev.pos) /\ Same
       [] ev.ev = "End" -> (\A i \in 1 .. Len(fl) : fl[i].st # "scheduled") /\ Same
       [] OTHER -> FALSE
